@@ -153,6 +153,9 @@ func (fr *Frame) step(st *State, ins ssa.Instruction) {
 			x.unsupported(fr, st, ins, fmt.Sprint(r))
 		}
 	}()
+	if fr.depth == 0 && fr.contract != nil && len(fr.contract.Reach) > 0 {
+		fr.reachCheck(st, ins)
+	}
 	switch in := ins.(type) {
 	case *ssa.DebugRef:
 	case *ssa.Alloc:
@@ -258,6 +261,41 @@ func (fr *Frame) step(st *State, ins ssa.Instruction) {
 		x.unsupported(fr, st, in, "multiconvert")
 	default:
 		x.unsupported(fr, st, ins, "instruction")
+	}
+}
+
+// reachCheck: gate obligations attached to statements by their source text.
+func (fr *Frame) reachCheck(st *State, ins ssa.Instruction) {
+	x := fr.x
+	pos := ins.Pos()
+	if !pos.IsValid() {
+		return
+	}
+	txt := normText(x.w.stmtTextAt(pos))
+	if txt == "" {
+		return
+	}
+	for _, rc := range fr.contract.Reach {
+		if rc.Stmt != txt {
+			continue
+		}
+		key := fmt.Sprintf("%s@%d", rc.Stmt, ins.Block().Index)
+		if fr.reachDone == nil {
+			fr.reachDone = map[string]bool{}
+		}
+		if fr.reachDone[key+rc.Clause.Text] {
+			continue
+		}
+		fr.reachDone[key+rc.Clause.Text] = true
+		env := fr.specEnv(st)
+		env.lookup = func(s *State, name string) (*Val, bool) { return fr.lookupLocal(s, name, pos) }
+		g, err := env.evalBool(rc.Clause.Expr)
+		if err != nil {
+			x.vc.diag("%s: reach %q: %v", fr.fn.String(), rc.Stmt, err)
+			g = "false"
+		}
+		x.oblige(st, "reach", rc.Stmt+" only_if "+rc.Clause.Text, pos, g, rc.Clause.Tags, false)
+		rc.Clause.Label = "bound"
 	}
 }
 
